@@ -1072,7 +1072,8 @@ fn run_c18(t: &mut Tape, tier: Tier) -> RunOut {
             }
         }
     }
-    out.shape = fnv(FNV0, format!("{}|{}|{}", items.len(), nthreads, golden.iter().filter(|g| g.0.starts_with("Ok")).count()).as_bytes());
+    // distinct cases = distinct (corpus shape, thread count, baton hand-off trace)
+    out.shape = fnv(fnv(FNV0, format!("{}|{}|{}", items.len(), nthreads, golden.iter().filter(|g| g.0.starts_with("Ok")).count()).as_bytes()), &out.interleaving.to_le_bytes());
     out
 }
 
